@@ -108,6 +108,13 @@ func genApl(r *Rng, tier string) *Enc {
 	if r.Chance(25) {
 		axis = 0
 	}
+	// the axis ARGUMENT: absent means column-wise, and every number other than 0 means row-wise (Apply's documentation)
+	axisArg := []int{axis}
+	if axis == 0 && r.Chance(30) {
+		axisArg = nil
+	} else if axis == 1 && r.Chance(20) {
+		axisArg = []int{Pick(r, []int{2, -1, 7, 1 << 40})}
+	}
 	tag := r.Intn(5)
 	if r.Chance(25) {
 		tag = 8 // identity: a side-effect-free callback that returns the slice it was given
@@ -205,7 +212,7 @@ func genApl(r *Rng, tier string) *Enc {
 	done := make(chan outT, 1)
 	go func() {
 		var o outT
-		o.status, _ = guard(func() error { o.res, o.err = df.Apply(fn, axis); return o.err })
+		o.status, _ = guard(func() error { o.res, o.err = df.Apply(fn, axisArg...); return o.err })
 		done <- o
 	}()
 	var order []int
